@@ -1,3 +1,4 @@
+import BoolFn.Proofs.CsvQuoteRoundtrip
 import BoolFn.Proofs.CsvQuoted
 import BoolFn.Proofs.Csv
 import BoolFn.Proofs.Codec
